@@ -364,3 +364,182 @@ Proof.
   apply key_is_true in Ek. unfold shown, skip_common, is_internal. rewrite Ek, Hint. cbn.
   rewrite !orb_false_r, andb_true_r. now rewrite N.leb_antisym.
 Qed.
+
+(* ---------------------------------------------------------------- membership facts of one backup *)
+Lemma cut_incl {A} (p : A -> bool) vs x : In x (cut p vs) -> In x vs.
+Proof.
+  induction vs as [|e vs IH]; cbn [cut]; [contradiction|].
+  destruct (p e).
+  - intros [<-|[]]. now left.
+  - intros [<-|H]; [now left|right; auto].
+Qed.
+
+Lemma max_ver_acc l : forall a, fold_left (fun m e => N.max m (e_ver e)) l a
+                                = N.max a (fold_left (fun m e => N.max m (e_ver e)) l 0).
+Proof.
+  induction l as [|e l IH]; intros a; cbn [fold_left]; [lia|].
+  rewrite (IH (N.max a (e_ver e))), (IH (N.max 0 (e_ver e))). lia.
+Qed.
+
+Lemma max_ver_ge l x : In x l -> e_ver x <= max_ver l.
+Proof.
+  unfold max_ver. induction l as [|e l IH]; [contradiction|]. cbn [fold_left]. rewrite max_ver_acc.
+  intros [<-|H]; [lia|]. specialize (IH H). lia.
+Qed.
+
+Lemma max_ver_le l b : Forall (fun x => e_ver x <= b) l -> max_ver l <= b.
+Proof.
+  unfold max_ver. induction 1 as [|e l He _ IH]; cbn [fold_left]; [lia|]. rewrite max_ver_acc. lia.
+Qed.
+
+Section BackupMembers.
+  Variable since now r : N.
+  Variable m : src.
+  Hypothesis Hm : view_ok m.
+  Hypothesis Hne : no_empty_key m.
+  Hypothesis Hpos : Forall (fun e => 0 < e_ver e) m.
+  Let sh := shown [] since r (fun _ => false).
+  Let out := backup_pass since now (fun _ => false) r m.
+
+  Lemma backup_sound x : In x out ->
+    exists e, In e m /\ sh e = true /\ (x = bk_entry now e \/ x = synth_delete e).
+  Proof.
+    intros Hx.
+    assert (Hin: In x (filter (key_is (e_key x)) out)).
+    { apply filter_In. split; auto. apply key_is_true. reflexivity. }
+    unfold out in Hin. rewrite (backup_per_key since now (fun _ => false) r m Hm Hne) in Hin.
+    unfold expand in Hin. apply in_flat_map in Hin. destruct Hin as (e & He & Hxe).
+    apply cut_incl in He. apply filter_In in He. destruct He as (He & _).
+    apply filter_In in He. destruct He as (Hem & Hsh).
+    exists e. repeat split; auto.
+    destruct Hxe as [<-|Hxe]; [now left|]. destruct (has_discard e); [|contradiction].
+    destruct Hxe as [<-|[]]. now right.
+  Qed.
+
+  Lemma backup_newest e : In e m -> sh e = true ->
+    (forall e', In e' m -> sh e' = true -> e_key e' = e_key e -> e_ver e' <= e_ver e) ->
+    In (bk_entry now e) out.
+  Proof.
+    intros He Hsh Hmax.
+    assert (Hin: In (bk_entry now e) (filter (key_is (e_key e)) out)).
+    2:{ apply filter_In in Hin. tauto. }
+    unfold out. rewrite (backup_per_key since now (fun _ => false) r m Hm Hne).
+    set (vs := filter (key_is (e_key e)) (shown_items [] since r (fun _ => false) m)).
+    assert (Hev: In e vs).
+    { apply filter_In. split; [apply filter_In; auto|apply key_is_true; reflexivity]. }
+    assert (Hs: StronglySorted desc vs).
+    { apply (desc_of_sorted (e_key e)); [|apply filter_key_is_all]. apply sorted_filter, sorted_filter. exact Hm. }
+    destruct vs as [|h vs'] eqn:Evs; [contradiction|].
+    assert (Hh: In h (h :: vs')) by now left. rewrite <- Evs in Hh. unfold vs in Hh.
+    apply filter_In in Hh. destruct Hh as (Hh & Hhk). apply key_is_true in Hhk.
+    apply filter_In in Hh. destruct Hh as (Hhm & Hhs).
+    assert (h = e) as ->.
+    { destruct Hev as [->|Hev]; auto.
+      inversion Hs as [|? ? _ Hx]; subst. rewrite Forall_forall in Hx. specialize (Hx e Hev). unfold desc in Hx.
+      specialize (Hmax h Hhm Hhs Hhk). lia. }
+    cbn [cut]. destruct (marker now e); unfold expand; cbn [flat_map]; now left.
+  Qed.
+
+  Lemma backup_ret_le : max_ver out <= r.
+  Proof.
+    apply max_ver_le. apply Forall_forall. intros x Hx.
+    destruct (backup_sound x Hx) as (e & He & Hsh & [-> | ->]).
+    - apply shown_vers in Hsh. cbn. lia.
+    - apply shown_vers in Hsh. rewrite Forall_forall in Hpos. specialize (Hpos e He).
+      cbn. pose proof (ver_pred_lt _ Hpos). lia.
+  Qed.
+End BackupMembers.
+
+(* ---------------------------------------------------------------- incremental chains *)
+Lemma chain_of_cons m r rest since now :
+  chain_of ((m, r) :: rest) since now
+  = backup_pass since now (fun _ => false) r m
+    ++ chain_of rest (max_ver (backup_pass since now (fun _ => false) r m)) now.
+Proof.
+  cbn [chain_of]. unfold backup_of, backup_pass, stream_pass, ranges. cbn [ranges_from map concat].
+  now rewrite app_nil_r.
+Qed.
+
+Section Chain.
+  Variable W : src.                 (* the source's final view *)
+  Variable r now : N.
+  Variable k : bytes.
+  Hypothesis HW : view_ok W.
+  Hypothesis Hint : is_prefix c_badgerPrefix k = false.
+
+  (* every backup read ONE snapshot (m_i at r_i <= r) of well-formed views, in which every
+     commit <= r_i was applied (Happlied) and of which nothing <= r_i was garbage-collected
+     before the final view (Hkept) *)
+  Definition chain_ok (bs : list (src * N)) : Prop :=
+    forall mi ri, In (mi, ri) bs ->
+      view_ok mi /\ no_empty_key mi /\ Forall (fun e => 0 < e_ver e) mi /\ ri <= r
+      /\ (forall e, In e W -> e_ver e <= ri -> In e mi)
+      /\ (forall e, In e mi -> e_ver e <= ri -> In e W).
+
+  Lemma chain_sound bs : chain_ok bs -> forall since x, In x (chain_of bs since now) ->
+    exists e, In e W /\ e_ver e <= r /\ 0 < e_ver e /\ (x = bk_entry now e \/ x = synth_delete e).
+  Proof.
+    induction bs as [|[m1 r1] rest IH]; intros Hok since x Hx; [contradiction|].
+    rewrite chain_of_cons in Hx. apply in_app_iff in Hx. destruct Hx as [Hx|Hx].
+    - destruct (Hok m1 r1 (or_introl eq_refl)) as (Hm & Hne & Hp & Hr & _ & Hkept).
+      destruct (backup_sound since now r1 m1 Hm Hne x Hx) as (e & He & Hsh & Hxe).
+      apply shown_vers in Hsh. exists e. repeat split; auto; try lia.
+      + apply Hkept; auto. lia.
+      + rewrite Forall_forall in Hp. now apply Hp.
+    - apply (IH (fun mi ri H => Hok mi ri (or_intror H)) _ x Hx).
+  Qed.
+
+  Lemma chain_has_newest bs e : chain_ok bs ->
+    In e W -> e_key e = k -> e_ver e <= r ->
+    (forall y, In y W -> e_key y = k -> e_ver y <= r -> e_ver y <= e_ver e) ->
+    forall since, since < e_ver e -> (exists mi ri, In (mi, ri) bs /\ e_ver e <= ri) ->
+    In (bk_entry now e) (chain_of bs since now).
+  Proof.
+    intros Hok He Hk Hv Hmax. revert Hok. induction bs as [|[m1 r1] rest IH]; intros Hok since Hs Hex.
+    - destruct Hex as (mi & ri & Hin & _). contradiction.
+    - rewrite chain_of_cons. apply in_app_iff.
+      destruct (Hok m1 r1 (or_introl eq_refl)) as (Hm & Hne & Hp & Hr & Happl & Hkept).
+      destruct (N.le_gt_cases (e_ver e) r1) as [Hle|Hgt].
+      + left. apply (backup_newest since now r1 m1 Hm Hne e).
+        * apply Happl; auto.
+        * unfold shown, skip_common, is_internal. rewrite Hk, Hint. cbn.
+          assert (E1: (r1 <? e_ver e) = false) by (apply N.ltb_ge; lia).
+          assert (E2: (e_ver e <=? since) = false) by (apply N.leb_gt; lia).
+          rewrite E1, E2. now rewrite andb_false_r.
+        * intros e' He' Hsh' Hk'. apply shown_vers in Hsh'. apply Hmax.
+          -- apply Hkept; auto. lia.
+          -- congruence.
+          -- lia.
+      + right. apply IH.
+        * intros mi ri H. apply Hok. now right.
+        * pose proof (backup_ret_le since now r1 m1 Hm Hne Hp). lia.
+        * destruct Hex as (mi & ri & [[= -> ->]|Hin] & Hle); [lia|]. exists mi, ri. auto.
+  Qed.
+
+  Theorem chain_visible bs now' ts : chain_ok bs -> In (W, r) bs -> now <= now' -> r <= ts ->
+    vis (chain_of bs 0 now) k ts now' = vis W k r now'.
+  Proof.
+    intros Hok Hlast Hnow Hts. unfold vis at 2.
+    destruct (spec_latest W k r None) as [e|] eqn:Esl.
+    - destruct (spec_latest_some _ _ _ _ _ Esl) as ([H|(He & Hk & Hv)] & Hmax & _); [discriminate|].
+      destruct (Hok W r Hlast) as (_ & _ & Hp & _).
+      assert (Hpe: 0 < e_ver e) by (rewrite Forall_forall in Hp; now apply Hp).
+      assert (Hin: In (bk_entry now e) (chain_of bs 0 now)).
+      { apply (chain_has_newest bs e Hok He Hk Hv Hmax 0 Hpe). exists W, r. auto. }
+      unfold vis. rewrite (spec_latest_max _ k ts (bk_entry now e) Hin).
+      + rewrite deleted_or_expired_bk. destruct (deleted_or_expired e now') eqn:Ed; auto.
+        now rewrite (bk_entry_live now now' e Hnow Ed).
+      + exact Hk.
+      + cbn. lia.
+      + intros y Hy Hky _. destruct (chain_sound bs Hok 0 y Hy) as (e' & He' & Hv' & Hp' & [-> | ->]).
+        * cbn in Hky. specialize (Hmax e' He' Hky Hv').
+          destruct (N.eq_dec (e_ver e') (e_ver e)) as [Eq|Neq].
+          -- right. f_equal. apply (view_distinct W); auto. congruence.
+          -- left. cbn. lia.
+        * cbn in Hky. specialize (Hmax e' He' Hky Hv'). left. cbn. pose proof (ver_pred_lt _ Hp'). lia.
+    - destruct (spec_latest_none _ _ _ _ Esl) as (_ & Hno).
+      unfold vis. rewrite spec_latest_filter. rewrite filter_none; [reflexivity|].
+      apply Forall_forall. intros y Hy. apply key_is_false. intros Hky.
+      destruct (chain_sound bs Hok 0 y Hy) as (e' & He' & Hv' & _ & [-> | ->]); cbn in Hky; apply (Hno e' He'); auto.
+  Qed.
+End Chain.
